@@ -314,7 +314,12 @@ func runOnce(p *Prog, mode int, rng *rand.Rand, stamps bool) ([]HOp, bool) {
 			defer wg.Done()
 			ready.Done()
 			if mode == 3 {
-				for gate.Load() == 0 {
+				// bounded busy spin (an oversubscribed machine must not burn
+				// whole time slices here), then yield like mode 0
+				for n := 0; gate.Load() == 0; n++ {
+					if n > 20000 {
+						runtime.Gosched()
+					}
 				}
 			} else if mode != 1 {
 				for gate.Load() == 0 {
